@@ -380,7 +380,15 @@ func (m *fsModel) apply(e sysEvent) (mutating bool, torn *tornWrite) {
 		m.fds[fd] = &openFile{ino: n, append: strings.Contains(flags, "O_APPEND")}
 		return changed, nil
 	case "close":
-		fd, _ := fdArg(arg(0))
+		// strace -f prints a call when it returns: another thread's openat that reuses the number can be printed
+		// first.  The -y annotation says which file this close was about; a descriptor that meanwhile belongs to
+		// another file stays.
+		fd, cp := fdArg(arg(0))
+		if of := m.fds[fd]; of != nil && cp != "" && m.inside(cp) {
+			if cur := m.paths[cp]; cur != nil && cur != of.ino && !strings.HasSuffix(cp, "(deleted)") {
+				break
+			}
+		}
 		delete(m.fds, fd)
 	case "dup", "dup2", "dup3":
 		fd, _ := fdArg(arg(0))
@@ -401,10 +409,19 @@ func (m *fsModel) apply(e sysEvent) (mutating bool, torn *tornWrite) {
 			of.off += e.retInt()
 		}
 	case "write", "pwrite64":
-		fd, _ := fdArg(arg(0))
+		fd, wp := fdArg(arg(0))
 		of := m.fds[fd]
 		if of == nil {
+			if wp != "" && m.inside(wp) {
+				m.gap("write to %s through a descriptor the model does not know", wp)
+			}
 			return false, nil
+		}
+		if wp != "" && m.inside(wp) {
+			if cur := m.paths[wp]; cur != nil && cur != of.ino {
+				m.gap("write annotated %s goes to another file in the model (descriptor reuse across threads)", wp)
+				return false, nil
+			}
 		}
 		n := e.retInt()
 		data, complete := straceStr(arg(1))
